@@ -185,7 +185,7 @@ def ladder_check(acc, mp, prop, fname, args, p, kwargs=None, budget=20, anchors=
             lost = int(mp.ceil(mp.log(err / a3, 2))) + p - bound + 1 if err > 0 else 0
             kind, mc = classify(args, p)
             acc.violation(case, '%s%s at prec %d = %s, reference %s: relative error 2^%d exceeds 2^(%d-p)' % (fname, show(args), p, mp.nstr(V1, 15), mp.nstr(V3, 15), int(mp.log(err / a3, 2)), bound),
-                          fn=fname, kind='accuracy', arg=kind, mag=mc, lostpct=min(130, 100 * lost // p))
+                          fn=fname, kind='accuracy', arg=kind, mag=mc, lostpct=min(130, 100 * lost // p), args=show(args))
         if anchors:
             for aname, afun in anchors:
                 try:
@@ -247,6 +247,8 @@ def table_tasks(table, tier, seed):
     for p in precisions(tier, seed):
         for i, ent in enumerate(table):
             if p > ent.get('maxprec', 10 ** 9) and tier != 'thorough':
+                continue
+            if p > ent.get('maxprec_thorough', 10 ** 9):
                 continue
             out.append(('fn', i, p))
     return out
